@@ -66,7 +66,9 @@ def run(p, report, tier):
                 "filler must be the strategy's sentinel", floor=2)
     report.rule("R9.4", "outside utils/_label.py no function applies np.isnan / np.isfinite / np.nan_to_num directly to "
                 "its label parameter (y, y_true, y_pred); missing labels are recognised only through the sentinel-aware "
-                "predicates", floor=1)
+                "predicates; equality with the sentinel is NaN-blind and equally forbidden", floor=1)
+    report.rule("R9.5", "inside classifiers the label-encoded y returned by _validate_data is compared only with class "
+                "indices (range(len(classes_))), never with the raw class values", floor=1)
     report.rule("R9.3", "project models and encoders constructed inside strategies / classifiers receive an explicit "
                 "missing_label", floor=8)
     n_sites = 0
@@ -178,6 +180,12 @@ def run(p, report, tier):
                 b = base_name(n.args[0]) if not isinstance(n.args[0], ast.Name) else n.args[0].id
                 if b in ypars:
                     bad = n
+            if bad is None and isinstance(n, ast.Compare) and len(n.ops) == 1 and isinstance(n.ops[0], (ast.Eq, ast.NotEq)):
+                sides = [n.left, n.comparators[0]]
+                sent = [x for x in sides if "missing_label" in ast.unparse(x)]
+                arr = [x for x in sides if (names_in(x) & ylike) and "missing_label" not in ast.unparse(x)]
+                if sent and arr and not f.qual.startswith("ExtLabelEncoder"):
+                    bad = n
             if bad is not None:
                 n94 += 1
                 exc = NAN_TEST_OK.get(f.name)
@@ -186,6 +194,40 @@ def run(p, report, tier):
                            "missing labels are recognised by a NaN test instead of is_unlabeled(y, missing_label): "
                            "wrong for every other sentinel")
     report.analysed["nan_tests_on_label_arrays"] = n94
+    # ---------------- R9.5 encoded labels are compared with class indices, not class values
+    n95 = 0
+    for f in p.all_functions():
+        if f.cls is None or not p.is_subclass(f.cls, "SkactivemlClassifier"):
+            continue
+        enc = set()
+        for n in ast.walk(f.node):
+            if isinstance(n, ast.Assign) and isinstance(n.value, ast.Call) and c01.callname(n.value) == "_validate_data" \
+                    and isinstance(n.targets[0], ast.Tuple) and len(n.targets[0].elts) >= 2 \
+                    and isinstance(n.targets[0].elts[1], ast.Name):
+                enc.add(n.targets[0].elts[1].id)
+        if not enc:
+            continue
+        for n in ast.walk(f.node):
+            gens = []
+            if isinstance(n, (ast.ListComp, ast.GeneratorExp, ast.SetComp)):
+                gens = [(g.target, g.iter, n.elt) for g in n.generators]
+            elif isinstance(n, ast.For):
+                gens = [(n.target, n.iter, n)]
+            for tgt, it, body in gens:
+                if not isinstance(tgt, ast.Name):
+                    continue
+                cmp_ = [c for c in ast.walk(body) if isinstance(c, ast.Compare) and len(c.ops) == 1
+                        and isinstance(c.ops[0], (ast.Eq, ast.NotEq))
+                        and tgt.id in names_in(c) and (names_in(c) & enc)]
+                if not cmp_:
+                    continue
+                n95 += 1
+                txt = ast.unparse(it).replace(" ", "")
+                idx_space = txt.startswith("range(") or txt.startswith("np.arange(")
+                report.add("R9.5", f.qual, f"encoded labels compared with `{norm_stmt(it, 40)}`", f"{f.file}:{cmp_[0].lineno}",
+                           idx_space, detail="class indices 0..K-1 (the encoder's codomain)" if idx_space else
+                           "label-encoded y is compared with raw class values: correct only when the classes are literally 0..K-1")
+    report.analysed["encoded_label_comparisons"] = n95
     # ---------------- R9.3
     for f in p.all_functions():
         if f.file.startswith("skactiveml/visualization"):
